@@ -4,7 +4,7 @@ Line-protocol driver for the C18 model (model file only).
 
 One case per line, space-separated `key=value` fields (names never contain space , : = | ; # or /):
 
-  ns=<0|1> epb=<0|1> cwd=<abs path> mp=<abs path>:<abs path>… ent=<f|d>:<abs path>,… args=<abs path>,… fuel=<n> pkg=<name|->
+  ns=<0|1> epb=<0|1> cwd=<abs path> mp=<abs path>:<abs path>… ent=<f|d>:<abs path>,… args=<abs path>,… fuel=<n> pkg=<name[,name…]|->
 
 Output, sections separated by ` # `:
 
@@ -13,7 +13,7 @@ Output, sections separated by ` # `:
   R <root>;…                              mypy_path + python_path derived from the sources
   F <module>=><path or -><:d if a directory>;…      find_module(source.module) per source
   H gr=<0|1>,re=<0|1>,dup=<0|1>           goodRoots, rootsExplicit, hasDuplicate (global side conditions / first disjunct)
-  C <path>|f=,i=,s=,n=,b=,l=,ok=,rt=;…    per source: isFile, importable, spells, noInnerBase, noBareDir, foundListed,
+  C <path>|f=,i=,s=,n=,b=,l=,t=,ok=,rt=;… per source: isFile, importable, spells, noInnerBase, noBareDir, foundListed, topOK,
                                           cellOK (their conjunction) and roundTrips (the conclusion)
   P <path>|<module>;…                     find_modules_recursive(pkg) with roots mypy_path + [cwd]   (only when pkg given)
 -/
@@ -59,7 +59,8 @@ def step (line : String) : String :=
   let pkg := field fields "pkg"
   let pkgOut :=
     if pkg == "" || pkg == "-" then ""
-    else " # P " ++ ";".intercalate ((findModulesRecursive fs o.ns (packageRoots o) fuel ((pkg.splitOn ".").map nm)).map
+    else " # P " ++ ";".intercalate (((pkg.splitOn ",").filter (· ≠ "")).flatMap fun one =>
+          (findModulesRecursive fs o.ns (packageRoots o) fuel ((one.splitOn ".").map nm)).map
             fun (p, m) => showPath p ++ (if fs.isDir p then ":d" else "") ++ "|" ++ showMod m)
   let main :=
     match createSourceList fs o fuel args with
@@ -79,7 +80,8 @@ def step (line : String) : String :=
           "f=" ++ b2s (fs.isFile s.path) ++ ",i=" ++ b2s (importable s.module) ++
           ",s=" ++ b2s (s.base.isSome && spells B s.module s.path) ++
           ",n=" ++ b2s (noInnerBase o roots s.module) ++ ",b=" ++ b2s (noBareDir fs o roots B s.module) ++
-          ",l=" ++ b2s (foundListed fs o srcs s) ++ ",ok=" ++ b2s (cellOK fs o srcs s) ++
+          ",l=" ++ b2s (foundListed fs o srcs s) ++ ",t=" ++ b2s (topOK fs o roots s.module) ++
+          ",ok=" ++ b2s (cellOK fs o srcs s) ++
           ",rt=" ++ b2s (roundTrips fs o srcs s))
   main ++ pkgOut
 
